@@ -1,14 +1,14 @@
 #!/bin/bash
-# applies each behaviour-preserving refactoring (from /tmp/refactor_out/<G>/<k>/patch.diff or /verif/refactors/<name>) in a scratch worktree
+# applies each behaviour-preserving refactoring (from /tmp/refactor_out/<G>/<k>/patch.diff or $HERE/refactors/<name>) in a scratch worktree
 # and runs the quick checks: every check must stay silent (exit 0).
-cd /verif
+HERE=$(cd "$(dirname "$0")/.." && pwd); export HERE; cd $HERE   # works from a snapshot of /verif too (vp run)
 PROPS=${PROPS:-$(python3 -c "import json;print(' '.join(c['property_id'] for c in json.load(open('MANIFEST.json'))['checks']))")}
 one() {
   pf=$1; n=$(echo $pf | tr '/' '_'); wt=/tmp/rfrun_$n; out=/tmp/rfout_$n
   rm -rf $wt $out; git -C /repo worktree add -q --detach $wt HEAD 2>/dev/null || { echo "$pf: worktree failed"; return; }
   if ! git -C $wt apply $pf 2>/dev/null; then echo "$pf: PATCH DOES NOT APPLY"; git -C /repo worktree remove --force $wt; return; fi
   hits=""
-  PL="$PROPS"; [ -n "${TARGETED:-}" ] && PL=$(python3 /verif/tools/props_for.py $pf)
+  PL="$PROPS"; [ -n "${TARGETED:-}" ] && PL=$(python3 $HERE/tools/props_for.py $pf)
   for q in $PL; do
     o=$(VERIF_OUT=$out python3-vt -m hv.check $q --repo $wt 2>&1); rc=$?
     if [ $rc = 1 ]; then hits="$hits $q(FALSE-ALARM:$(echo "$o" | grep -m1 '  rule' | cut -c1-160))"; elif [ $rc = 2 ]; then hits="$hits $q(ERR:$(echo "$o" | grep -m1 ANALYSIS | cut -c1-200))"; fi
@@ -17,5 +17,5 @@ one() {
   echo "$pf: ${hits:- silent}"
 }
 export -f one; export PROPS TARGETED
-ls ${@:-/verif/refactors/*/patch.diff} | xargs -P 12 -I{} bash -c 'one {}' | sort
+ls ${@:-$HERE/refactors/*/patch.diff} | xargs -P 12 -I{} bash -c 'one {}' | sort
 git -C /repo worktree prune
